@@ -196,15 +196,16 @@ func (e *PipeEnd) WriteMessage(b []byte) error {
 }
 
 // Unstall: the peer reads again; what was held back is delivered in order.
-func (e *PipeEnd) Unstall() {
-	p := e.p
-	p.stall[e.side] = false
-	for _, m := range p.held[e.side] {
-		p.nw[e.side]++
-		p.q[e.side] = append(p.q[e.side], m)
-		p.wire = append(p.wire, Frame{Dir: e.side, Data: m, Step: vs.Steps()})
+func (e *PipeEnd) Unstall() { e.p.unstall(e.side) }
+
+func (p *pipeState) unstall(side int) {
+	p.stall[side] = false
+	for _, m := range p.held[side] {
+		p.nw[side]++
+		p.q[side] = append(p.q[side], m)
+		p.wire = append(p.wire, Frame{Dir: side, Data: m, Step: vs.Steps()})
 	}
-	p.held[e.side] = nil
+	p.held[side] = nil
 }
 
 // Close closes this end: its own reads and writes fail, the peer drains and then reads EOF.
